@@ -9,6 +9,8 @@ must stay silent (exit 0, same known findings) on behaviour-preserving edits:
       contain local names
   N3  every run of consecutive plain method / function definitions reversed; SQL library files re-indented with a comment line before
       every CREATE (tools/reorder_defs.py): nothing may depend on the order of definitions or on positions inside the .sql files
+  N4  nested calls in argument position hoisted into fresh temporaries (tools/extract_temps.py): a rule must follow a value through
+      a local it is parked in
 must fire (exit 1, VIOLATION) on variants that break the property while still compiling:
   S*  every change kept under /verif/seeded/<ID>_*/ that names this property in `caught_by`
   F*  the repository's own `fix:` commits for this property applied in reverse (from known_findings.txt `fixed:` lines)
@@ -159,6 +161,20 @@ def run_for(prop: str) -> int:
             results.append({"variant": "N3:runs of plain definitions reversed, SQL files re-indented and commented", "edits": nre, "expected": "silent, same known findings", "exit": rc, "ok": ok})
             if not ok:
                 failures.append(f"N3 (behaviour-preserving re-ordering of definitions, {nre} edits): exit {rc}; " + ("; ".join(x[:200] for x in v[:2]) if v else f"known findings differ: {sorted(set(k) ^ set(k0))[:2]}"))
+        # N4
+        n4root = base / "n4"
+        n4root.mkdir()
+        _copy_tree(n4root)
+        rr = subprocess.run([PY, str(VERIF / "tools" / "extract_temps.py"), str(n4root)], capture_output=True, text=True, timeout=600)
+        nho = int((rr.stdout.strip().splitlines() or ["0"])[-1]) if rr.returncode == 0 and (rr.stdout.strip().splitlines() or ["x"])[-1].isdigit() else -1
+        if nho <= 0:
+            failures.append(f"N4: tools/extract_temps.py failed on the scratch copy: {rr.stderr[-200:]}")
+        else:
+            rc, v, k = _run_check(prop, n4root)
+            ok = rc == 0 and k == k0
+            results.append({"variant": "N4:call arguments that are calls hoisted into temporaries", "edits": nho, "expected": "silent, same known findings", "exit": rc, "ok": ok})
+            if not ok:
+                failures.append(f"N4 (behaviour-preserving hoisting of {nho} nested calls into temporaries): exit {rc}; " + ("; ".join(x[:200] for x in v[:2]) if v else f"known findings differ: {sorted(set(k) ^ set(k0))[:2]}"))
         # S*/F*
         vars_ = _variants(prop)
 
